@@ -1,5 +1,7 @@
 import CookModel.Lemmas.SimEvents
 import CookModel.Lemmas.SimComp
+import CookModel.Lemmas.SimFront
+import CookModel.Lemmas.SpansFront
 /-
   The block parsers on related blocks WITHOUT the no-marker side condition of `SimEvents.lean`:
   steps with components (`@ # ~`), `parse_block`, `runBlock`, the fold over all blocks, and the
@@ -171,5 +173,30 @@ theorem crlf_eventsF (cs : CharSpec) (hcs : CrlfSpec cs) (hu : UwsNL cs) (ext : 
       (allBlocks ((lexFrom cs off s).length + 1) (lexFrom cs off s)) := by
     rw [hl.length_eq]; exact sim_allBlocks tokSim_kindPres _ hl
   exact foldl_runBlock_relF hu ext oldStyle hb he
+
+/-- **CRLF conversion of a whole input**: the `PullParser` run (front-matter split, lexer, block
+    splitter, block parsers) on `crlf s` and on `s`, for every backslash-free `s` -/
+theorem crlf_pullEventsF (cs : CharSpec) (hcs : CrlfSpec cs) (hu : UwsNL cs) (ext : Ext)
+    (s : List Char) (hs : CrlfSafe s) :
+    LRel (EvSim cs.uws) (pullEvents (α := α) cs ext (crlf s)).1.toList (pullEvents (α := α) cs ext s).1.toList := by
+  unfold pullEvents
+  have hfm := crlf_frontmatter cs hu s
+  rcases hfm.elim with ⟨e', e⟩ | ⟨fm', fm, e', e, hf⟩
+  · simp only [e', e]
+    exact crlf_eventsF cs hcs hu ext true s hs 0 0 .nil
+  · simp only [e', e]
+    obtain ⟨⟨pre, hpre, -⟩, -⟩ := frontMatterOffsetsOK cs s fm e
+    have hsafe : CrlfSafe fm.cookText := by
+      intro hm
+      apply hs
+      rw [hpre]
+      exact List.mem_append_right _ hm
+    rw [hf.2, hf.1]
+    refine crlf_eventsF cs hcs hu ext false fm.cookText hsafe _ _
+      (acc' := (#[.frontMatter (Text.fromStr (crlf fm.yamlText) fm'.yamlOffset)], none))
+      (acc := (#[.frontMatter (Text.fromStr fm.yamlText fm.yamlOffset)], none)) ?_
+    refine .cons ?_ .nil
+    unfold EvSim
+    exact Or.inr ⟨_, _, _, rfl, rfl⟩
 
 end Cook
